@@ -1,23 +1,15 @@
 #!/bin/sh
 # tools/regress_seeded.sh [pattern] : run every seeded change against the check of the property it breaks
-# (meta.json: breaks_property, optional decided_by) and write seeded/RESULTS.md.  Three at a time.
+# (meta.json: breaks_property, optional decided_by) and write seeded/RESULTS.md.  REGRESS_PAR (default 3) at a time.
 cd /verif
 pat="${1:-*}"
 out=$(mktemp -d /tmp/regress-XXXXXX)
-run_one() {
-  d="$1"; id=$(basename "$d")
-  pid=$(/venv/bin/python -c "import json;m=json.load(open('$d/meta.json'));print(m.get('decided_by') or m['breaks_property'])")
-  r=$(tools/try_seeded.sh "$d" "$pid" 2>&1 | tail -1 | cut -d' ' -f1)
-  echo "$id $pid $r" >> "$out/results.txt"
-}
-n=0
-for d in seeded/$pat; do
-  [ -f "$d/patch.diff" ] || continue
-  run_one "$d" &
-  n=$((n+1))
-  if [ $((n % 3)) -eq 0 ]; then wait; fi
-done
-wait
+export out
+for d in seeded/$pat; do [ -f "$d/patch.diff" ] && echo "$d"; done | xargs -P "${REGRESS_PAR:-3}" -I{} sh -c '
+  d="{}"; id=$(basename "$d")
+  pid=$(/venv/bin/python -c "import json;m=json.load(open(\"$d/meta.json\"));print(m.get(\"decided_by\") or m[\"breaks_property\"])")
+  r=$(tools/try_seeded.sh "$d" "$pid" 2>&1 | tail -1 | cut -d" " -f1)
+  echo "$id $pid $r" >> "$out/results.txt"'
 sort "$out/results.txt" > "$out/sorted.txt"
 { echo "# Seeded changes: final regression"; echo; echo "Run by tools/regress_seeded.sh on $(date -u +%FT%TZ) against /repo $(git -C /repo rev-parse --short HEAD), quick tier."; echo;
   echo "| seeded change | decided by | verdict |"; echo "|---|---|---|"; awk '{print "| " $1 " | " $2 " | " $3 " |"}' "$out/sorted.txt"; echo;
